@@ -161,6 +161,8 @@ def get_classes():
                 for h in w.hosts:
                     if h.addr is not None and h.addr == getattr(node, 'id', None):
                         w.snap_sent = (h.idx, w.evno)
+            if isinstance(message, dict) and message.get('type') == 'append_entries' and w.oracle is not None:
+                _check_sent_entries(w, self, node, message)
             if w.tap is not None:
                 w.tap.on_send(w.cur, node, message, ok)
             if w.verbose_from is not None and w.evno >= w.verbose_from:
@@ -179,6 +181,48 @@ def get_classes():
         return orig_recv(self, node, message)
     TCPT._onMessageReceived = recv_wrapper
     return _classes
+
+
+def _check_sent_entries(w, transport, node, message):
+    """Whatever a leader sends as the entry of a log position - in one message or in the chunks of a big entry - is the entry its
+    own log holds at that position at that moment (same command, index and term)."""
+    so = transport._syncObj
+    host = w.hosts[w.cur]
+    if host.doomed:
+        return
+    log = so._SyncObj__raftLog
+    if len(log) == 0:
+        return
+    ents = None
+    tr = message.get('transmission')
+    if tr is None:
+        ents = message.get('entries') or []
+        w.chunks_out.pop((w.cur, getattr(node, 'id', None)), None)
+    else:
+        key = (w.cur, getattr(node, 'id', None))
+        if tr == 'start':
+            w.chunks_out[key] = [message['data']]
+        elif key in w.chunks_out:
+            w.chunks_out[key].append(message['data'])
+        if tr == 'finish' and key in w.chunks_out:
+            blob = b''.join(bytes(x) if not isinstance(x, bytes) else x for x in w.chunks_out.pop(key))
+            try:
+                ents = [_pickle.loads(blob)]
+            except Exception:
+                ents = None
+                w.oracle.flag('sent_entry_not_in_log', 'host %d sent a chunked entry to %s whose chunks do not add up to a pickled entry' % (w.cur, getattr(node, 'id', None)))
+    if not ents:
+        return
+    base = log[0][1]
+    for e in ents:
+        k = e[1] - base
+        mine = log[k] if 0 <= k < len(log) else None
+        if mine is None or mine[1] != e[1] or mine[2] != e[2] or bytes(mine[0]) != bytes(e[0]):
+            w.probe('sent_entry_checked_mismatch')
+            w.oracle.flag('sent_entry_not_in_log', 'host %d (term %d) sent as entry of position %d (term %d, %d bytes) something else than its own log holds there (%s)' % (
+                w.cur, so.raftCurrentTerm, e[1], e[2], len(e[0]), 'term %d, %d bytes' % (mine[2], len(mine[0])) if mine is not None else 'nothing'))
+            return
+    w.probe('sent_entries_checked', len(ents))
 
 
 class KVModel(object):
